@@ -13,7 +13,7 @@
    The checkers [linear_path_valid], [ssa_path_valid], [tree_complete_b] are what the
    check runs, inside Coq, on every path / tree the real optimizers return. *)
 From Coq Require Import Lia Permutation.
-From Ctg Require Import Base Net PathValid Processor BaseFacts PathValidFacts ProcessorFacts.
+From Ctg Require Import Base Net PathValid Processor BaseFacts PathValidFacts ProcessorFacts BuilderFacts SsaLinearFacts RefineFacts.
 
 (* ---- path_valid_sound -------------------------------------------------------- *)
 (* an accepted linear path: every step references existing distinct positions, the
@@ -69,34 +69,93 @@ Theorem C05_tree_complete_b_sound : forall n ch, tree_complete_b n ch = true -> 
 Proof. exact tree_complete_b_sound. Qed.
 Print Assumptions C05_tree_complete_b_sound.
 
-(* ---- processor_paths_valid (partial) ------------------------------------------ *)
+(* ---- ssa_to_linear ------------------------------------------------------------- *)
+(* path_basic.ssa_to_linear (bisect_left on the ascending ids list, positions popped in reverse)
+   maps every valid SSA path prefix to a valid linear path prefix leaving the same number of
+   tensors; a complete SSA path to a complete linear path *)
+Theorem C05_ssa_to_linear_valid : forall n p av nx, ssa_run any_len (seq 0 n) n p = Some (av, nx) ->
+  exists q, ssa_to_linear n p = Some q /\ lin_run any_len n q = Some (length av).
+Proof. exact ssa_to_linear_valid. Qed.
+Print Assumptions C05_ssa_to_linear_valid.
+
+(* ---- processor_paths_valid --------------------------------------------------------- *)
 (* Every mutation ContractionProcessor makes to (nodes, ssa, ssa_path) is contract_nodes(i, j)
    or the single-term step of simplify_single_terms (abstract machine of Model/Processor.v; heap
    order, scores, legs are abstracted: [os] is ANY sequence of such operations that does not
    hit a KeyError, [choose] ANY rule picking two distinct present nodes in
-   optimize_remaining_by_size).  Then one node is left and the recorded ssa_path is a valid
-   complete SSA path (hence, by C05_ssa_path_valid_sound / C05_from_ssa_path_complete, a
-   complete contraction).  Covers greedy, random-greedy, optimal, disconnected leftovers, N = 1, 2.
-   PARTIAL: (i) that the concrete passes only emit such operations is tied by the executed
-   correspondence (cp_simplify / cp_greedy / cp_remaining vs the code), not by a refinement
-   proof; (ii) validity of ssa_to_linear's output is not proved: the model ssa_to_linear is
-   compared output-for-output and every returned linear path is judged by linear_path_valid. *)
-Theorem C05_processor_paths_valid_partial : forall n os a choose fuel, 1 <= n ->
+   optimize_remaining_by_size).  Then one node is left, the recorded ssa_path is a valid complete
+   SSA path and ssa_to_linear turns it into a valid complete linear path.
+   Covers greedy, random-greedy, optimal, disconnected leftovers, N = 1, 2. *)
+Theorem C05_processor_paths_valid : forall n os a choose fuel, 1 <= n ->
   a_run (a_init n) os = Some a -> choose_ok choose -> length (a_present a) <= S fuel ->
   exists a', a_remaining choose fuel a = Some a' /\ length (a_present a') = 1 /\
-             ssa_path_valid n (a_path a') = true.
-Proof. exact processor_ssa_path_valid. Qed.
-Print Assumptions C05_processor_paths_valid_partial.
+             ssa_path_valid n (a_path a') = true /\
+             exists q, ssa_to_linear n (a_path a') = Some q /\ linear_path_valid n q = true.
+Proof. exact processor_paths_valid. Qed.
+Print Assumptions C05_processor_paths_valid.
 
-(* ---- partition_builder_complete: REFUTED for build_agglom (finding 17) ---------- *)
-(* a partition function of the right length that merges nothing (every group its own label)
-   makes the while loop of build_agglom run for ever: no amount of fuel suffices *)
-Theorem C05_build_agglom_terminates_refuted :
+(* ---- refinement: the concrete passes only emit abstract operations ------------------ *)
+(* [Ref c c']: the ok flag never returns to true, and whenever c' is flagged ok, c' is reached
+   from c by a sequence of abstract operations (contract_nodes / single-term step) on present
+   nodes.  Holds for every pass of the concrete model (which the correspondence compares
+   output-for-output with the code) for ALL inputs, legs, orders. *)
+Theorem C05_passes_refine : forall orders c,
+  Ref c (cp_simplify orders c) /\ Ref c (cp_greedy c) /\ Ref c (cp_remaining c) /\
+  Ref c (simplify_single_terms c) /\ Ref c (simplify_scalars c) /\ Ref c (simplify_batch c).
+Proof. exact passes_refine. Qed.
+Print Assumptions C05_passes_refine.
+
+(* optimize_greedy's pipeline on the concrete model, started from a fresh processor: if the run
+   flags no KeyError and one node is left (both are evaluated inside Coq on every correspondence
+   case), the recorded ssa_path is a valid complete SSA path and its ssa_to_linear image a valid
+   complete linear path *)
+Theorem C05_pipeline_valid : forall n orders c, cp_initial n c ->
+  let c' := cp_remaining (cp_greedy (cp_simplify orders c)) in
+  cp_ok c' = true -> length (cp_nodes c') = 1 ->
+  ssa_path_valid n (cp_path c') = true /\
+  exists q, ssa_to_linear n (cp_path c') = Some q /\ linear_path_valid n q = true.
+Proof. exact cp_pipeline_valid. Qed.
+Print Assumptions C05_pipeline_valid.
+
+(* ---- partition_builder_complete ------------------------------------------------ *)
+(* core.separate: the groups are non-empty and together are exactly the argument *)
+Theorem C05_separate_partitions : forall (xs : list nat) bs, length xs <= length bs ->
+  Permutation (concat (separate xs bs)) xs /\ forall g, In g (separate xs bs) -> g <> [].
+Proof. intros xs bs H. split; [now apply separate_perm|apply separate_nonempty]. Qed.
+Print Assumptions C05_separate_partitions.
+
+(* PartitionTreeBuilder.build_divide with an ARBITRARY membership oracle of the right length,
+   an arbitrary cutoff and any valid sub-path oracle terminates (fuel = number of tensors:
+   every community of a split into >= 2 is strictly smaller) and returns a binary tree over
+   exactly the inputs; the cutoff, one-community and parts >= nodes branches are cases of the
+   proof.  (Model: the tree.childless work list unfolded as a recursion, see docs.) *)
+Theorem C05_partition_builder_complete_divide :
+  forall (sub : list nset -> path) (memb_fn : nset -> list nat) cutoff n,
+  (forall ls : list nset, 3 <= length ls -> binary_path_valid (length ls) (sub ls) = true) ->
+  (forall s, length (memb_fn s) = length s) -> 1 <= n ->
+  exists t, build_divide sub memb_fn cutoff n = Some t /\ Permutation (leaves t) (seq 0 n).
+Proof. intros sub memb_fn cutoff n H1 H2. exact (build_divide_complete sub H1 memb_fn H2 cutoff n). Qed.
+Print Assumptions C05_partition_builder_complete_divide.
+
+(* build_agglom as it is in /repo now (break when a round merges nothing), ARBITRARY membership
+   oracle of the right length: terminates within n rounds and returns a complete tree *)
+Theorem C05_partition_builder_complete_agglom :
+  forall (sub : list nset -> path) (memb_fn : list nset -> list nat) groupsize n,
+  (forall ls : list nset, 3 <= length ls -> binary_path_valid (length ls) (sub ls) = true) ->
+  (forall l, length (memb_fn l) = length l) -> 1 <= n ->
+  exists t, build_agglom sub memb_fn groupsize n = Some t /\ Permutation (leaves t) (seq 0 n).
+Proof. intros sub memb_fn groupsize n H1 H2. exact (build_agglom_complete sub H1 memb_fn H2 groupsize n). Qed.
+Print Assumptions C05_partition_builder_complete_agglom.
+
+(* ---- the OLD build_agglom loop did not terminate (finding 17, fixed by /repo 001d170) --- *)
+(* [build_agglom_old] is the loop as it was before the fix: a partition function of the right
+   length that merges nothing (every group its own label) makes it run for ever *)
+Theorem C05_old_build_agglom_terminates_refuted :
   exists (memb_fn : list nset -> list nat) (n groupsize : nat),
     (forall l, length (memb_fn l) = length l) /\ groupsize >= 2 /\
-    forall fuel, build_agglom (sub_of_table []) memb_fn groupsize fuel n = None.
-Proof. exact build_agglom_terminates_refuted. Qed.
-Print Assumptions C05_build_agglom_terminates_refuted.
+    forall fuel, build_agglom_old (sub_of_table []) memb_fn groupsize fuel n = None.
+Proof. exact old_build_agglom_terminates_refuted. Qed.
+Print Assumptions C05_old_build_agglom_terminates_refuted.
 
 (* non-vacuity *)
 Example C05_nonvacuous_processor :
@@ -104,8 +163,9 @@ Example C05_nonvacuous_processor :
             (a_present a = [5; 6]) /\ (a_path a = [[1]; [0; 4]; [2; 3]]).
 Proof. eexists. vm_compute. repeat split. Qed.
 Example C05_repaired_agglom :
-  exists t, build_agglom_fixed (sub_of_table []) id_membership 4 5 = Some t /\ Permutation (leaves t) (seq 0 5).
-Proof. exact build_agglom_fixed_id5. Qed.
+  build_agglom (sub_of_table []) id_membership 4 5 =
+    Some (Node (Node (Node (Node (Leaf 3) (Leaf 4)) (Leaf 2)) (Leaf 1)) (Leaf 0)).
+Proof. vm_compute. reflexivity. Qed.
 Example C05_divide_example :
   match build_divide (sub_of_table []) (fun s => map (fun x => Nat.modulo x 2) s) 1 6 with
   | Some t => tree_complete_b 6 (children_of t) = true
